@@ -1,7 +1,6 @@
 package sinkcluster
 
 import (
-	"bufio"
 	"encoding/json"
 	"github.com/clarkduvall/hyperloglog"
 	"io"
@@ -28,11 +27,14 @@ func (c ClusterCounter) Count(reader io.Reader) (*ClusterCountResult, error) {
 	if err != nil {
 		return nil, err
 	}
-	inputScanner := bufio.NewScanner(reader)
-	for inputScanner.Scan() {
-		inputLine := inputScanner.Bytes()
+	// A chunk's sketch can encode to a line longer than bufio.Scanner's
+	// default limit, so decode the stream of JSON values directly.
+	decoder := json.NewDecoder(reader)
+	for {
 		sinkInfo := SinkEntry{}
-		if err := json.Unmarshal(inputLine, &sinkInfo); err != nil {
+		if err := decoder.Decode(&sinkInfo); err == io.EOF {
+			break
+		} else if err != nil {
 			return nil, err
 		}
 
